@@ -444,6 +444,24 @@ func init() {
 				return "prerun-err"
 			}
 		}
+		if p["prerun"] == "2" { // an earlier run of the *same* scenario name (3 quick iterations) on the same metrics instance
+			same := scenarios.New().Add(&scenarios.Scenario{Name: "s", ScenarioFn: func(*f1testing.T) f1testing.RunFn {
+				return func(t *f1testing.T) {
+					if atoi(t.Iteration)%2 == 0 {
+						t.Fail()
+					}
+				}
+			}})
+			o2 := options.RunOptions{Scenario: "s", MaxDuration: time.Second, Concurrency: 2, Verbose: true, MaxIterations: 4}
+			pr, err := run.NewRun(o2, same, &api.Trigger{Trigger: users.NewWorker(2)}, time.Second, envsettings.Settings{}, m,
+				ui.NewOutput(slog.New(&captureHandler{}), ui.NewDiscardPrinter(), false, false))
+			if err != nil {
+				return "newrun-err"
+			}
+			if _, err := pr.Do(context.Background()); err != nil {
+				return "prerun-err"
+			}
+		}
 		settings := envsettings.Settings{}
 		if !verbose { // the scenario log goes to a file: keep it in a scratch directory
 			d, err := os.MkdirTemp("", "f1verif-run")
@@ -680,12 +698,14 @@ func init() {
 		return fmt.Sprintf("ret=%d started=%d finished=%d inflight=%d startedAfter=%d progressAfter=%d gapless=%s maxid=%d "+
 			"maxflight=%d shared=%d res=%d/%d/%d truth=%d/%d metrics=%d/%d/%d/%d evals=%d sumrates=%d lastval=%d cadence=%s "+
 			"setups=%d setupFirst=%d tdLast=%d tdOrder=%d failed=%d err=%d leak=%d envBad=%d envAfter=%s stageOrderBad=%d "+
-			"laststart=%d trigdur=%d idchanged=%d cleanupBad=%d cleanupEarly=%d setupHandleInIteration=%d pushed=%s stagestarts=%s progressAfterCancel=%d printAfter=%d",
+			"laststart=%d trigdur=%d idchanged=%d cleanupBad=%d cleanupEarly=%d setupHandleInIteration=%d pushed=%s stagestarts=%s progressAfterCancel=%d printAfter=%d "+
+			"durmin=%d durmax=%d metsumus=%d",
 			ret.Milliseconds(), startedAtRet, finishedAtRet, inflightAtRet, startedAfter, progressAfter, boolTok(gapless), mx,
 			maxflight.Load(), shared.Load(), sn.SuccessfulIterationDurations.Count, sn.FailedIterationDurations.Count,
 			sn.DroppedIterationCount, truthS.Load(), truthF.Load(), g.succ, g.fail, g.dropped, g.setupSucc+g.setupFail,
 			evals, sum, lastVal, cadence, setupCount.Load(), setupFirst, tdLast, tdOrder, failed, hasErr, leak,
 			envBad.Load(), envAfter, stageSeqBad.Load(), lastStart, trig.Duration.Milliseconds(),
-			idChanged.Load(), cleanupBad, cleanupEarly.Load(), gotSetupHandle.Load(), pushed, stageStarts, progressAfterCancel, printAfter)
+			idChanged.Load(), cleanupBad, cleanupEarly.Load(), gotSetupHandle.Load(), pushed, stageStarts, progressAfterCancel, printAfter,
+			sn.SuccessfulIterationDurations.Min.Microseconds(), sn.SuccessfulIterationDurations.Max.Microseconds(), iterationSumMicros(m.Registry))
 	})
 }
